@@ -6,11 +6,15 @@ from harness.c01_ndef import lens_for
 PROPERTY = "C02"
 
 
-def t2(sx, S, prefix, rsv, oldlens, lens, long, retry=False, outage=0, relation=None):
+def t2(sx, S, prefix, rsv, oldlens, lens, long, retry=False, outage=0, relation=None, concrete=False):
     oldlen = sx.pick("oldlen", oldlens)
     w = worlds.T2World(sx, S, prefix, [tuple(r) for r in rsv], oldlen,
-                       old_lt_80=long)
+                       old_lt_80=long, symbolic_window=(0, 0) if concrete else None)
     w.long_trick = long
+    if concrete:
+        w.concrete_msg = True
+    if S > 1008 and oldlen > 1008:
+        sx.reach("stored_message_reaches_into_second_sector")
     n = sx.pick("n", [x for x in lens_for(w.cap, lens) if x <= w.cap])
     return ndefflow.cutflow(sx, w, n, retry, outage, relation)
 
@@ -152,6 +156,13 @@ def partitions(tier):
             parts.append(dict(name="t3%s:%d:%d:%d" % ("emu" if emulated else "", nbr, nbw, nmaxb),
                               fn="t3", params=dict(nbr=nbr, nbw=nbw, nmaxb=nmaxb, oldlens=[0, 5, 17],
                                                    lens=[0, 1, 16, 17, 33, "cap"], emulated=emulated)))
+    # a tag of two sectors whose stored message reaches into the second one
+    # (reading it leaves sector 1 selected): overwritten through the same
+    # object, cut at every command (contents concrete: the subject is which
+    # sector the commands go to)
+    parts.append(dict(name="t2:2032:sector:cut", fn="t2",
+                      params=dict(S=2032, prefix="", rsv=[], oldlens=[1100], lens=[5, 1060],
+                                  long=True, concrete=True)))
     for nulls in range(4):
         prefix = "N" * nulls
         parts.append(dict(name="t1:static:%s:free" % (prefix or "-"), fn="t1",
@@ -269,12 +280,12 @@ def partitions(tier):
     return parts
 
 
-MUST_REACH = ["lite_attribute_block_says_read_only", "new_message_appends_to_old", "new_message_is_prefix_of_old", "cut", "cut_before_first_write", "write_completed_without_cut",
+MUST_REACH = ["stored_message_reaches_into_second_sector", "lite_attribute_block_says_read_only", "new_message_appends_to_old", "new_message_is_prefix_of_old", "cut", "cut_before_first_write", "write_completed_without_cut",
               "after_cut_empty", "after_cut_old_or_new", "length_field_straddles_write_unit",
               "after_cut_not_readable", "retry_completed", "retry_cut",
               "lite_authenticated_reader_after_cut_in_data_phase",
               "lite_plain_reader_after_cut_in_data_phase"]
-BOUNDS = {"quick": "T2: 48- and 496-byte data areas, NDEF TLV at offsets 0..3 mod 4, old/new lengths on both sides of 254/255, cut before every WRITE; one repetition of the same write through the same tag object after the cut (Type 1 static/dynamic, Type 2, Type 3 and its emulation), itself cut at every point or completed; a momentary outage (the three attempts of one command unanswered, then the tag answers again) at every point; added later: new messages that begin with the stored one or are a prefix of it (Type 1 dynamic, Type 2); a FeliCa Lite-S tag with RWFlag 00h rewritten by its authenticated owner",
+BOUNDS = {"quick": "T2: 48- and 496-byte data areas, NDEF TLV at offsets 0..3 mod 4, old/new lengths on both sides of 254/255, cut before every WRITE; one repetition of the same write through the same tag object after the cut (Type 1 static/dynamic, Type 2, Type 3 and its emulation), itself cut at every point or completed; a momentary outage (the three attempts of one command unanswered, then the tag answers again) at every point; added later: new messages that begin with the stored one or are a prefix of it (Type 1 dynamic, Type 2); a FeliCa Lite-S tag with RWFlag 00h rewritten by its authenticated owner; a two-sector Type 2 tag (2032 bytes, stored message of 1100 bytes reaching into sector 1, concrete contents) overwritten with 5 / 1060 bytes through the object that read it",
           "thorough": "as quick with every new length for the 48-byte area"}
 OUTSIDE = ["torn writes inside one command", "tags that change memory on a failed command",
            "a repeated write after the cut on a Type 4 Tag (the ISO-DEP state after a failed exchange is the known finding of C12)",
